@@ -172,9 +172,28 @@ theorem wf_l4Tree (x : L4) : WF (l4Tree x) := by
   | tcp s d off res fl => exact wf_numObj _ _ (by decide +kernel)
   | udp s d => exact wf_numObj _ _ (by decide +kernel)
 
-theorem wf_pktTree (p : Pkt) : WF (pktTree p) := by
-  simp only [pktTree, obj, WF, membersOf, WFM, and_true]
-  exact ⟨by decide +kernel, wf_l2Tree _, by decide +kernel, wf_l3Tree _, by decide +kernel, wf_l4Tree _⟩
+theorem wf_pktMembers (p : Pkt) : ∀ q ∈ pktMembers p, isStrBody (kb q.1) = true ∧ WF q.2 := by
+  intro q hq
+  simp only [pktMembers, List.mem_cons, List.not_mem_nil, or_false] at hq
+  rcases hq with rfl | rfl | rfl
+  · exact ⟨by dsimp only; decide +kernel, wf_l2Tree _⟩
+  · exact ⟨by dsimp only; decide +kernel, wf_l3Tree _⟩
+  · exact ⟨by dsimp only; decide +kernel, wf_l4Tree _⟩
+
+theorem wf_pktTree (p : Pkt) : WF (pktTree p) := wf_obj _ (wf_pktMembers p)
+
+/-- the raw-header record (F33): four number members, then the packet's members when there is a packet -/
+theorem wf_rawHeaderTree (h : RawHeader) : WF (rawHeaderTree h) := by
+  apply wf_obj
+  intro q hq
+  rw [List.mem_append] at hq
+  rcases hq with hq | hq
+  · simp only [rawHeaderWords, List.mem_cons, List.not_mem_nil, or_false] at hq
+    rcases hq with rfl | rfl | rfl | rfl
+    all_goals exact ⟨by dsimp only; decide +kernel, wf_num _⟩
+  · cases hp : h.pkt with
+    | none => rw [hp] at hq; simp at hq
+    | some p => rw [hp] at hq; exact wf_pktMembers p q hq
 
 theorem wf_extRouterTree (x : ExtRouter) : WF (extRouterTree x) := by
   simp only [extRouterTree, obj, WF, membersOf, WFM, wf_num, wf_ipLeaf, and_true, true_and]
@@ -189,7 +208,7 @@ theorem wf_flowRecsTree (m : FlowRecs) : WF (flowRecsTree m) := by
   rcases hp with (hp | hp) | hp
   · obtain ⟨x, rfl⟩ := mem_entry hp; exact ⟨by dsimp only; decide +kernel, wf_extRouterTree x⟩
   · obtain ⟨x, rfl⟩ := mem_entry hp; exact ⟨by dsimp only; decide +kernel, wf_extSwitchTree x⟩
-  · obtain ⟨x, rfl⟩ := mem_entry hp; exact ⟨by dsimp only; decide +kernel, wf_pktTree x⟩
+  · obtain ⟨x, rfl⟩ := mem_entry hp; exact ⟨by dsimp only; decide +kernel, wf_rawHeaderTree x⟩
 
 theorem wf_flowSampleTree (s : FlowSample) : WF (flowSampleTree s) := by
   simp only [flowSampleTree, obj, WF, membersOf, WFM, wf_num, and_true, true_and]
